@@ -52,7 +52,7 @@ class Instr:
     def __init__(self, sched):
         self.sched = sched
         self.saved = []
-        self.shim = core.Shim(sched)
+        self.shim = core.Shim(sched, post_yield=True)
         self.exc_ids = {}        # id(exception object) -> small int
         self.exc_objs = []
         self.task_ids = {}       # id(task) -> small int
@@ -237,6 +237,10 @@ class Instr:
                     real_set()
                     I.log('event_set', t=self_.transfer_id, status=self_._status)
                 ev.set = logged_set
+                # the wrappers of this class log a record right after the call returns: keep
+                # "critical section + its log record" one scheduling step (no yield after release)
+                for nm in ('_lock', '_associated_futures_lock', '_done_callbacks_lock', '_failure_cleanups_lock'):
+                    getattr(self_, nm).post_yield = False
                 self_._lock = _HookedLock(self_._lock, lambda: I.on_state_lock_release(self_))
             return __init__
         wrap(TC, '__init__', mk_tc_init)
@@ -373,6 +377,17 @@ class Instr:
                 return release
             wrap(cls, 'acquire', mk_acq)
             wrap(cls, 'release', mk_rel)
+
+        def mk_quiet_init(orig, names):
+            def __init__(self_, *a, **k):
+                orig(self_, *a, **k)
+                for nm in names:
+                    lk = getattr(self_, nm, None)
+                    if hasattr(lk, 'post_yield'):
+                        lk.post_yield = False
+            return __init__
+        wrap(utils.SlidingWindowSemaphore, '__init__', lambda o: mk_quiet_init(o, ('_lock',)))
+        wrap(utils.CountCallbackInvoker, '__init__', lambda o: mk_quiet_init(o, ('_lock',)))
 
         # -- count-down invoker ---------------------------------------------------
         CCI = utils.CountCallbackInvoker
